@@ -43,6 +43,7 @@ type KnownFinding struct {
 }
 
 type CheckRun struct {
+	graph *fsmGraph
 	ID, Tier     string
 	Seed         int
 	Level        string
@@ -373,7 +374,7 @@ func (cr *CheckRun) writeEvidence(violations int, knownMatched map[string]int) {
 		"ssa_instructions_executed":     cr.Pool.Steps,
 		"queries":                       cr.Pool.Queries,
 		"solver_time_s":                 cr.Pool.SolverS,
-		"solver":                        cr.Pool.solver + " (one process per worker, SMT-LIB2 over a pipe)",
+		"solver":                        cr.Pool.solver + " 4.8.12 (one process per worker, SMT-LIB2 over a pipe; 15 s soft budget per query, then z3 5.1.0 on the same assertion stack, then the first solver again with four times the budget)",
 		"bounds":                        cr.bounds,
 		"samples":                       cr.samples,
 		"traces_validated_against_impl": cr.validated,
